@@ -62,6 +62,44 @@ CLAIMED = {
         "Relies on first-order simulate() (judged by C01); stable roots <= 0.85 by construction; variables with zero variance are skipped in acorr.",
         "DESIGN.md section 3, C15",
     ),
+    "C03": (
+        "Hypothesis-generated models/data/masks; Kalman outputs compared with dense Gaussian conditioning on an MA representation built from simulated impulse responses",
+        "For generated determinate models with 1-3 measurement equations, drawn stds (zeros, one time-varying series), spans 1-8, arbitrary data "
+        "and missing-data masks (cells, whole periods, never-observed variables), deviation and rescale_variance flags, the harness builds the "
+        "joint Gaussian of all shocks over 200 pre-sample and the in-sample periods, maps it to every variable through impulse responses of "
+        "simulate() and conditions by dense Cholesky: total and per-period negative log-likelihood (sum, zero for empty periods), var_scale, "
+        "predict/update/smooth means and stds of variables and shocks, prediction errors and prediction MSE matrices must agree.",
+        "Relies on first-order simulate() (C01); singular observation covariances and unit-root/diffuse models are not generated; tolerances 1e-7 (means, likelihood) and 1e-6 (variances).",
+        "DESIGN.md section 3, C03",
+    ),
+    "C12": (
+        "Hypothesis-generated series/frequency pairs/methods against a calendar-membership reference aggregation, placement and round-trip checks, and an independent constrained least-squares (null-space) optimum for arip",
+        "Aggregation of generated series (all calendar frequencies incl. daily with leap Februaries, 1-2 variants, NaN patterns, unaligned starts) is "
+        "compared with plain-Python grouping by datetime membership for every method and option; disaggregation placements and the documented "
+        "round trips are checked; arip output must meet constraints and targets to 1e-9 and equal the harness's own equality-constrained "
+        "least-squares minimiser of the documented criterion (plus projected-gradient = 0).",
+        "Undocumented edge behaviour (callables on padding, min/max with NaN order, middle of even groups, regular->daily) is not asserted; see ASSUMPTIONS in the evidence.",
+        "DESIGN.md section 3, C12",
+    ),
+    "C16": (
+        "exhaustive enumeration of all boolean matrices with a perfect matching for n<=4 and of all zero-shift dependency patterns for n<=4 Sequential models, plus Hypothesis-sampled larger structures, against a validity predicate",
+        "Every boolean n x n matrix (n<=4) with a perfect matching (own augmenting-path test) under several id labelings, and sampled planted-block / "
+        "triangular / dense / sparse matrices up to n=30, must be decomposed by blaze into blocks that partition ids, are square with an internal "
+        "perfect matching and have no incidence on later blocks; all zero-shift dependency patterns of <=4 Sequential equations and sampled larger "
+        "ones must be reordered validly by sequentialize (or raise leaving the model untouched); split_into_blocks and block-wise solve_steady on "
+        "models built from generated matrices must use the same partition and reproduce numpy.linalg.solve.",
+        "Exhaustive only for n<=4; structurally singular matrices, duplicate left-hand names and steady plans are outside the generated domain.",
+        "DESIGN.md section 3, C16",
+    ),
+    "C18": (
+        "Hypothesis-generated VAR data sets; estimates compared with independent numpy lstsq on harness-built regressors, normal equations, round trips through simulate, companion-form moments",
+        "Data sets from generated stable VARs (1-3 endogenous, order 1-3, 0-2 exogenous, intercept on/off, noise incl. none, NaN rows, 1-2 variants, "
+        "Minnesota/Mean prior dummy observations) are estimated; coefficients must equal numpy.linalg.lstsq over exactly the complete rows, "
+        "X'u=0, fitted+residual=data, noise-free data return the generating VAR, residual covariance is the (dof-corrected) second moment, "
+        "simulate with estimated residuals reproduces the data, and mean/eigenvalues/autocovariances equal those of the harness's companion form.",
+        "The dof divisor and the scale of Minnesota dummy observations are undocumented; both readings are accepted (see ASSUMPTIONS). Regressor condition number <= 1e3 by construction.",
+        "DESIGN.md section 3, C18",
+    ),
 }
 
 NOT_BUILT_REASON = "check not built yet in this round (design in DESIGN.md section 3); not claimed until it is quiet on the unchanged tree and kills its mutants"
